@@ -179,3 +179,20 @@ Theorem model_is_code_instance : forall tzo tzarg W f, wall_in_range W = true ->
   glue_DateTime_instance (dt_of W f tzo) tzarg = g_build (opt_tz_or tzo tzarg) W f false.
 Proof. exact glue_instance_spec. Qed.
 Print Assumptions model_is_code_instance.
+
+(* ---- FLOAT timestamps: the model is the code.  Gen/FloatGlueGen.v (gens/g55_float_glue.py, tools/vlib/pyfloat2gallina.py) translates from /repo on
+   every run pendulum.from_timestamp under a FLOAT timestamp (utcfromtimestamp(<float>) = the named CPython primitive
+   Model/FloatGlue.nat_utcfromtimestamp_float = FloatRoutes.utcfromtimestamp_float_us + the year range check; then pendulum.datetime(.., tz=UTC) and
+   in_timezone: the translated Gen/TzGlue functions) and DateTime.float_timestamp (= self.timestamp(), CPython's own: DateTime must not define it).
+   They equal from_timestamp_float / timestamp_float of Model/FloatRoutes.v, about which the float theorems above speak.
+   (int_timestamp and the integer from_timestamp: model_is_code_int_timestamp / model_is_code_from_timestamp above.) *)
+From PV Require Import Spec.TdFloat Model.FloatRoutes Model.FloatGlue Gen.FloatGlueGen Proofs.FloatGlueFacts.
+
+Theorem model_is_code_from_timestamp_float : forall tz t, gtz_ok tz -> same_obj g_UTC tz ->
+  gen_from_timestamp_float t tz = res_of (Some tz) (from_timestamp_float (gz_zone tz) (gtz_is g_UTC tz) t).
+Proof. exact gen_from_timestamp_float_eq. Qed.
+Print Assumptions model_is_code_from_timestamp_float.
+
+Theorem model_is_code_timestamp : forall t W f, gen_float_timestamp (dt_of W f (Some t)) = Ok (timestamp_float (gz_zone t) W f).
+Proof. exact gen_float_timestamp_eq. Qed.
+Print Assumptions model_is_code_timestamp.
